@@ -130,6 +130,12 @@ class Ctx:
     k = vm_sample if vm_sample is not None else self.scale(40, 300)
     if k and cases:
       idx = sorted(self.rng.sample(range(len(cases)), min(k, len(cases))))
+      # a case whose literal is very large cannot be evaluated inside coqc (stack depth of the parser, see DESIGN 2.2):
+      # such cases stay with the extracted runner only and are counted
+      big = [i for i in idx if len(trlib.to_line(cases[i])) > 30000]
+      if big:
+        idx = [i for i in idx if i not in set(big)]
+        self.extra['vm_compute_crosscheck_skipped_oversized'] = len(big)
       t0 = time.time()
       vm = coqrun.run_vm(qual, [cases[i] for i in idx], self.workdir)
       bad = [(i, v) for i, v in zip(idx, vm) if v != outs[i]]
